@@ -13,7 +13,7 @@ import z3
 from . import api
 from .engine import Frame, State
 from .source import SourceIndex
-from .values import EnumV, Obj, SymList, STORAGE_CODES, EngineError, Unsupported
+from .values import EnumV, Obj, ObjList, SymList, STORAGE_CODES, EngineError, Unsupported
 from .verifier import Verifier, StopConcrete
 
 VERIF = os.path.dirname(os.path.dirname(os.path.abspath(__file__)))
@@ -22,7 +22,11 @@ ITER = {"SingleMemory": "basic_schedules.SingleMemoryStorageSchedule._iterator",
         "NoneSchedule": "basic_schedules.NoneCheckpointSchedule._iterator",
         "Multistage": "multistage.MultistageCheckpointSchedule._iterator",
         "Mixed": "mixed.MixedCheckpointSchedule._iterator",
-        "TwoLevel": "twolevel_binomial.TwoLevelCheckpointSchedule._iterator"}
+        "TwoLevel": "twolevel_binomial.TwoLevelCheckpointSchedule._iterator",
+        "HRevolve": "hrevolve.RevolveCheckpointSchedule._iterator",
+        "DiskRevolve": "hrevolve.RevolveCheckpointSchedule._iterator",
+        "PeriodicDiskRevolve": "hrevolve.RevolveCheckpointSchedule._iterator",
+        "Revolve": "hrevolve.RevolveCheckpointSchedule._iterator"}
 
 SPECS = [
     ["SingleMemory", [], [], 4], ["SingleDisk", [], [["move_data", True]], 3],
@@ -36,6 +40,8 @@ SPECS = [
     ["TwoLevel", [3, 1], [["binomial_storage", "RAM"]], 7],
     ["TwoLevel", [4, 2], [["binomial_storage", "DISK"], ["binomial_trajectory", "revolve"]], 10],
     ["TwoLevel", [1, 0], [], 3], ["TwoLevel", [5, 0], [["binomial_storage", "RAM"]], 5],
+    ["HRevolve", [6, 2, 1], [], 6], ["HRevolve", [7, 1, 2, 1, 1, 5, 0], [], 7], ["DiskRevolve", [7, 2], [], 7],
+    ["Revolve", [6, 2], [], 6], ["PeriodicDiskRevolve", [9, 1], [], 9],
 ]
 
 
@@ -59,6 +65,20 @@ def to_value(v, eng):
         return SymList(lst.arrs, lst.length, lst.etypes, False, immutable=True)
     if isinstance(v, dict) and "str" in v:
         return EnumV("str", eng.reg.intern(v["str"]))
+    if isinstance(v, dict) and "ops" in v:
+        # the operation list of a Revolve-family schedule, field-wise
+        ty = z3.K(z3.IntSort(), z3.IntVal(0))
+        ip = z3.K(z3.IntSort(), z3.BoolVal(False))
+        i0 = z3.K(z3.IntSort(), z3.IntVal(0))
+        i1 = z3.K(z3.IntSort(), z3.IntVal(0))
+        for k, (t, ix) in enumerate(v["ops"]):
+            ty = z3.Store(ty, k, eng.reg.intern(t))
+            pair = isinstance(ix, list)
+            ip = z3.Store(ip, k, pair)
+            i0 = z3.Store(i0, k, ix[0] if pair else ix)
+            i1 = z3.Store(i1, k, ix[1] if pair else 0)
+        return ObjList("SchedOp", {"type": ty, "index.ip": ip, "index.i0": i0, "index.i1": i1},
+                       len(v["ops"]), eng.reg.fields_of("SchedOp"))
     return v
 
 
@@ -88,6 +108,8 @@ def run(repo="/repo", verbose=True):
         st.frames[0].vars["self"] = Obj("self", c.self_class)
         st.heap["g"] = {}
         st.frames[0].vars["g"] = Obj("g", "Ghost")
+        eng.concrete_oplist = st.heap["self"].get("_schedule") if isinstance(
+            st.heap["self"].get("_schedule"), ObjList) else None
         eng.concrete_nondet = [spec[3], 10 ** 6, 10 ** 6]
         eng.concrete_limit = len(rec["stream"])
         err = None
